@@ -244,7 +244,7 @@ class SimpleARTMAP(BaseARTMAP):
         SimpleARTMAP.validate_data(self, X, y)
         # Store the classes seen during fit
         self.classes_ = unique_labels(y)
-        self.labels_ = y
+        self.labels_ = np.copy(y)
         self.map = dict()
         # init module A
         self.module_a.W = []
@@ -299,7 +299,7 @@ class SimpleARTMAP(BaseARTMAP):
         """
         SimpleARTMAP.validate_data(self, X, y)
         if not hasattr(self, "labels_"):
-            self.labels_ = y
+            self.labels_ = np.copy(y)
             self.module_a.W = []
             self.module_a.weight_sample_counter_ = []
             self.module_a.sample_counter_ = 0
